@@ -15,6 +15,10 @@ HARNESSES = []
 
 def H(**kw):
     kw.setdefault("tier", "quick")
+    if kw["tier"] == "thorough":
+        # deeper instances are attempts under a cap: one that does not finish is reported as "not discharged"
+        # (evidence: required_obligations vs obligations), never as a pass and never as an alarm
+        kw.setdefault("optional", True)
     kw.setdefault("timeout", 900)
     kw.setdefault("mem_gb", 6)
     # 'playback': no nondeterministic environment model in the way => the solver's assignment is re-executed natively.
@@ -237,7 +241,7 @@ H(name="cmd_gen_key_fs", crate="kestrel-cli", mod="commands::verif_cmd", props=[
   funcs=["commands::gen_key", "commands::open_output", "commands::OnDemandFile"], bounds="output path absent | present with any 0..4 bytes; one key generation from that arbitrary state (= the inductive step for any history)", env=CMD_ENV, outside=CMD_OUT + "; that the appended text parses (C17)")
 for _c, _p, _t in (("cmd_decrypt_flow", ["C12", "C13", "C05"], "thorough"), ("cmd_encrypt_flow", ["C12", "C13", "C07", "C05"], "thorough"),
                    ("cmd_pass_encrypt_flow", ["C12", "C13", "C07", "C02"], "thorough"), ("cmd_pass_decrypt_flow", ["C12", "C13", "C02"], "thorough")):
-    H(name=_c, crate="kestrel-cli", mod="commands::verif_cmd", props=_p, est_s=600, timeout=(7200 if _t == "thorough" else 2400), tier=_t, optional=(_t == "thorough"), mem_gb=16, replay="model", unwindset=BT_UNWIND,
+    H(name=_c, crate="kestrel-cli", mod="commands::verif_cmd", props=_p, est_s=600, timeout=(5400 if _t == "thorough" else 2400), tier=_t, optional=(_t == "thorough"), mem_gb=16, replay="model", unwindset=BT_UNWIND,
       desc="command returns Ok iff every pre-check passed and the library call returned Ok (errors never swallowed, success never manufactured); output path untouched unless and until the library writes; then it holds exactly what the library wrote; keys/passwords/salts handed to the library are the ones obtained (sender looked up by the authenticated key; salt = fresh CSPRNG draw)",
       funcs=["commands::" + _c.replace("cmd_", "").replace("_flow", ""), "commands::open_input", "commands::open_output", "commands::OnDemandFile"],
       bounds="input file argument (present or missing); output path absent | present (0..4 bytes); keyring missing / 1..2 entries / with or without private key; name a|b|absent; every outcome of password prompt, unlock, checksum, and library call with 0..2 writes before its result", env=CMD_ENV, outside=CMD_OUT)
@@ -262,16 +266,16 @@ STR_UNWIND = ["_RNvNtNtCs8xvirJzNMvV_4core5slice6memchr12memchr_naiveCscPEpKYx75
               "_RNvXs_NtNtCs8xvirJzNMvV_4core3str7patternNtB4_12CharSearcherNtB4_8Searcher10next_matchCscPEpKYx75LN_7kestrel.0:4",
               "_RNvMs2_NtCscPEpKYx75LN_7kestrel7keyringNtB5_7Keyring12parse_config.0:8"]
 PARSER_OUT = "arbitrary UTF-8 texts and exhaustive token sequences: std's str::lines/trim/retain/memchr on symbolic text are out of reach of the bit-blasting back end in quick-tier time (DESIGN 6.1)"
-H(name="c17_name_roundtrip", crate="kestrel-cli", mod="keyring::verif_keyring", unwindset=STR_UNWIND, props=["C17", "C14"], tier="thorough", optional=True, est_s=3000, timeout=7200, mem_gb=16, replay="model",
+H(name="c17_name_roundtrip", crate="kestrel-cli", mod="keyring::verif_keyring", unwindset=STR_UNWIND, props=["C17", "C14"], tier="thorough", optional=True, est_s=3000, timeout=5400, mem_gb=16, replay="model",
   desc="the [Key] section text key generation writes (transcribed format) for ANY accepted name of 1..2 ASCII bytes without TAB parses back to exactly that name and public key, and is found by get_key",
   funcs=["keyring::Keyring::new", "keyring::Keyring::parse_config", "keyring::Keyring::add_key", "keyring::Keyring::get_key", "keyring::EncodedPk::try_from"],
   bounds="names of 1..2 ASCII bytes (no NUL, LF, TAB; no leading/trailing whitespace)", env=KR_ENV[2:3], outside="names > 2 bytes; non-ASCII names; serialize_key's own formatting (transcribed)")
-H(name="c17_name_roundtrip_tab", crate="kestrel-cli", mod="keyring::verif_keyring", unwindset=STR_UNWIND, props=["C17"], tier="thorough", optional=True, est_s=3600, timeout=9000, mem_gb=16, replay="model",
+H(name="c17_name_roundtrip_tab", crate="kestrel-cli", mod="keyring::verif_keyring", unwindset=STR_UNWIND, props=["C17"], tier="thorough", optional=True, est_s=3600, timeout=5400, mem_gb=16, replay="model",
   desc="KNOWN FINDING F4: the same round trip for the concrete name a<TAB>b (expected to fail: the parser deletes every TAB)", funcs=["keyring::Keyring::parse_config"], bounds="one concrete text", env=KR_ENV[2:3], outside="")
-H(name="c17_sections", crate="kestrel-cli", mod="keyring::verif_keyring", unwindset=STR_UNWIND, props=["C17"], tier="thorough", optional=True, est_s=3000, timeout=7200, mem_gb=16, replay="model",
+H(name="c17_sections", crate="kestrel-cli", mod="keyring::verif_keyring", unwindset=STR_UNWIND, props=["C17"], tier="thorough", optional=True, est_s=3000, timeout=5400, mem_gb=16, replay="model",
   desc="Keyring::new on two sections with symbolic one-byte names and symbolic key choice: accepted iff names differ and keys differ; entries in order",
   funcs=["keyring::Keyring::new", "keyring::Keyring::parse_config", "keyring::Keyring::add_key"], bounds="names in a..c x a..c, same/different public key", env=KR_ENV[2:3], outside=PARSER_OUT)
-H(name="c17_shapes", crate="kestrel-cli", mod="keyring::verif_keyring", unwindset=STR_UNWIND, props=["C17", "C09"], auto_props=["C09", "C17"], tier="thorough", optional=True, est_s=7000, timeout=14000, mem_gb=16, replay="model",
+H(name="c17_shapes", crate="kestrel-cli", mod="keyring::verif_keyring", unwindset=STR_UNWIND, props=["C17", "C09"], auto_props=["C09", "C17"], tier="thorough", optional=True, est_s=5000, timeout=5400, mem_gb=16, replay="model",
   desc="Keyring::new on ten concrete section shapes (empty first/last section, field outside section, missing field, field twice, comments/blank/no final newline, junk, malformed private key, empty file): accepted iff the documented rule says so; entries = sections; never a panic",
   funcs=["keyring::Keyring::new", "keyring::Keyring::parse_config", "keyring::Keyring::add_key"], bounds="ten concrete texts of <= 110 bytes, executed one after the other (concrete cases, not solver-chosen)", env=KR_ENV[2:3], outside=PARSER_OUT)
 
